@@ -402,14 +402,55 @@ def stuck_cycles(func):
                 return False
             if any(x.k == 'DeclRefExpr' and (x['ref'].get('staticStorage') or x['ref'].get('fileScope')) for x in src.walk()):
                 return False
-            return not on_cycle(tgt)
+            return tgt in frozen
+
+        # variables whose value cannot change from one way round to the next: never assigned in the loop, or only ever
+        # assigned a pure expression of such variables (a search result taken again from the same start)
+        assigns_ = {}
+        for b2 in comp:
+            for e2 in func.blocks[b2].elems:
+                if e2.k in ('BinaryOperator', 'CompoundAssignOperator') and (e2.get('op') == '=' or e2.k == 'CompoundAssignOperator'):
+                    l2 = strip(e2.ch[0])
+                    if l2 is not None and l2.k == 'DeclRefExpr':
+                        assigns_.setdefault(l2['ref'].get('id'), []).append(e2.ch[1] if e2.k == 'BinaryOperator' else None)
+                elif e2.k == 'UnaryOperator' and e2.get('op') in ('++', '--'):
+                    l2 = strip(e2.ch[0])
+                    if l2 is not None and l2.k == 'DeclRefExpr':
+                        assigns_.setdefault(l2['ref'].get('id'), []).append(None)
+                elif e2.k == 'DeclStmt':
+                    for d2 in e2['decls']:
+                        if d2.get('init', -1) != -1:
+                            assigns_.setdefault(d2['id'], []).append(func.nodes[d2['init']])
+                elif e2.k == 'CallExpr':
+                    for a2 in e2.ch[1:]:
+                        s2 = strip(a2) if a2 is not None else None
+                        if s2 is not None and s2.k == 'UnaryOperator' and s2.get('op') == '&' and strip(s2.ch[0]).k == 'DeclRefExpr':
+                            assigns_.setdefault(strip(s2.ch[0])['ref'].get('id'), []).append(None)
+
+        def pure_(src):
+            return src is not None and not any(
+                (x.k == 'CallExpr' and x.get('callee') not in PURE_CALLS) or
+                (x.k == 'DeclRefExpr' and (x['ref'].get('staticStorage') or x['ref'].get('fileScope'))) for x in src.walk())
+        frozen = set()
+        grew = True
+        while grew:
+            grew = False
+            for v2, srcs in assigns_.items():
+                if v2 in frozen:
+                    continue
+                if all(pure_(s3) and refs(s3) and all((r2 not in assigns_) or (r2 in frozen) for r2 in refs(s3)) for s3 in srcs):
+                    frozen.add(v2)
+                    grew = True
+
+        def on_every_round(bid):
+            return True
 
         def progresses(blk):
             for e in blk.elems:
                 if e.k == 'BinaryOperator' and e.get('op') == '=':
                     l0 = strip(e.ch[0])
                     if l0 is not None and l0.k == 'DeclRefExpr' and l0['ref'].get('id') in vars_ and \
-                            recomputed(l0['ref']['id'], e.ch[1]):
+                            recomputed(l0['ref']['id'], e.ch[1]) and on_every_round(blk.id):
                         continue
                 if e.k in ('BinaryOperator', 'CompoundAssignOperator') and (e.get('op') == '=' or e.k == 'CompoundAssignOperator'):
                     l = strip(e.ch[0])
@@ -437,7 +478,8 @@ def stuck_cycles(func):
                             return True
                 if e.k == 'DeclStmt':
                     for d in e['decls']:
-                        if d['id'] in vars_ and d.get('init', -1) != -1 and not recomputed(d['id'], func.nodes[d['init']]):
+                        if d['id'] in vars_ and d.get('init', -1) != -1 and not (
+                                recomputed(d['id'], func.nodes[d['init']]) and on_every_round(blk.id)):
                             return True
             return False
         stay = {b for b in comp if not progresses(func.blocks[b])}
